@@ -283,6 +283,8 @@ class Proj:
                     opts.append("gapduration %s" % fmt_gap(gap))
                 if len(d) > 3 and d[3]:
                     opts.append("gaplength %s" % fmt_dur(d[3]))
+                if len(d) > 4 and d[4]:
+                    opts.append("maxgapduration %s" % fmt_gap(d[4]))
                 if onstart:
                     opts.append("onstart")
                 L.append("%sdepends %s%s" % (i2, ref, " { %s }" % " ".join(opts) if opts else ""))
@@ -331,7 +333,7 @@ class Proj:
             while x is not None and inh is None:
                 inh = x.start
                 x = x.parent
-            deps = [{"p": tix[id(d[0])], "onstart": bool(d[1]), "gap": int(d[2]), "clone": False, "maxgap": False,
+            deps = [{"p": tix[id(d[0])], "onstart": bool(d[1]), "gap": int(d[2]), "clone": False, "maxgap": bool(len(d) > 4 and d[4]),
                      "gaplen": bool(len(d) > 3 and d[3]), "glen": int(-(-d[3] // self.G)) if (len(d) > 3 and d[3]) else 0} for d in t.deps]      # slots of working time that cover the gap length
             for src, pgap in prec.get(id(t), []):
                 # `a precedes t` is `t depends a` (finish-to-start, with the gap written there): an edge of its own unless the
@@ -1164,8 +1166,10 @@ def gap_bounds(rng, n):
         G = rng.choice([3600, 1800])
         start = datetime(2025, 9, 1)
         alap = rng.random() < 0.4
+        maxgap_shape = (i % 4 == 3)
         p = Proj(start=start, G=G, length="+6w", alap=alap)
         rs = [p.add_res("r%d" % k) for k in range(3)]
+        late = p.add_res("rl", hours=std_hours(780, 1260), leaves=[(start, start + timedelta(days=rng.choice([1, 2, 9])))]) if maxgap_shape else None
         if not alap:
             a = p.add_task("a", effort=G * rng.randint(6, 16), alloc=[rs[0]])
             b = p.add_task("b", effort=G * rng.randint(1, 4), alloc=[rs[1]])
@@ -1177,8 +1181,15 @@ def gap_bounds(rng, n):
                 # a gap in WORKING time (of the project calendar) instead of calendar time, not always whole hours
                 k = rng.randrange(len(deps))
                 deps[k] = (deps[k][0], False, 0, rng.choice([G, 2 * G, 3 * G, 5400, 7200, 9000, 16 * 3600]))
+            if maxgap_shape:
+                # the successor must start within a maximum gap after one predecessor: the engine starts that predecessor
+                # late on purpose (outside the reference rule, `Plain`); bookings, efforts, dates and edges are still judged
+                k = rng.randrange(len(deps))
+                if not deps[k][1] and len(deps[k]) == 3:
+                    deps[k] = (deps[k][0], False, deps[k][2], 0, deps[k][2] + G * rng.choice([0, 1, 8, 24]))
             rng.shuffle(deps)
-            p.add_task("t", effort=G * rng.randint(1, 6), alloc=[rng.choice(rs)], deps=deps)
+            # (the engine delays the predecessor by an estimate: the first shift of the successor's resource)
+            p.add_task("t", effort=G * rng.randint(1, 6), alloc=[late if (late is not None and rng.random() < 0.7) else rng.choice(rs)], deps=deps)
             if rng.random() < 0.5:
                 p.add_task("m", milestone=True, deps=list(reversed(deps)))
         else:
